@@ -93,7 +93,60 @@ func yq(s string) string {
 	return b.String()
 }
 
-func (r rawInstance) yaml(b *strings.Builder) {
+// how the scalars of a document are spelled: "" / "quoted" (double quotes everywhere), "plain" (no quotes where YAML
+// allows it, so `010`, `0x10`, `+1` arrive as what YAML calls integers), "single" (single quotes), "alias" (a text or
+// value that occurred before is referred to by a YAML alias, a metadata map that occurred before by an alias or a
+// `<<` merge).  All spellings denote the same strings.
+type yamlStyle struct {
+	kind    string
+	anchors map[string]string // text -> anchor name
+	metas   []string          // anchored metadata maps (canonical text), index = anchor number
+	metaKV  [][][2]string
+}
+
+var plainSafe = regexp.MustCompile(`^[0-9A-Za-z+][0-9A-Za-z#+/_]*$`)
+var yamlWords = map[string]bool{"null": true, "Null": true, "NULL": true, "true": true, "True": true, "TRUE": true, "false": true, "False": true, "FALSE": true,
+	"yes": true, "no": true, "on": true, "off": true, "y": true, "n": true, "Y": true, "N": true, "Yes": true, "No": true, "On": true, "Off": true}
+
+func (st *yamlStyle) scalar(s string) string {
+	if st == nil {
+		return yq(s)
+	}
+	switch st.kind {
+	case "plain":
+		if plainSafe.MatchString(s) && !yamlWords[s] {
+			return s
+		}
+	case "single":
+		ok := s != ""
+		for _, r := range s {
+			if r == '\'' || r < 0x20 || r == 0x7f || r == 0x85 || r == 0x2028 || r == 0x2029 || r == 0xfeff {
+				ok = false
+			}
+		}
+		if ok && !strings.HasPrefix(s, " ") && !strings.HasSuffix(s, " ") {
+			return "'" + s + "'"
+		}
+	}
+	return yq(s)
+}
+
+// a text that may be referred to again
+func (st *yamlStyle) text(s string) string {
+	if st == nil || st.kind != "alias" {
+		return st.scalar(s)
+	}
+	if a, ok := st.anchors[s]; ok {
+		return "*" + a
+	}
+	a := fmt.Sprintf("a%d", len(st.anchors))
+	st.anchors[s] = a
+	return "&" + a + " " + yq(s)
+}
+
+func (r rawInstance) yaml(b *strings.Builder) { r.yamlStyled(b, nil) }
+
+func (r rawInstance) yamlStyled(b *strings.Builder, st *yamlStyle) {
 	b.WriteString("- ")
 	first := true
 	line := func(s string) {
@@ -107,52 +160,112 @@ func (r rawInstance) yaml(b *strings.Builder) {
 	if c := r.chord; c != nil {
 		line("chord:")
 		if c.degree != nil {
-			line("  degree: " + yq(*c.degree))
+			line("  degree: " + st.scalar(*c.degree))
 		}
-		line("  name: " + yq(c.name))
+		line("  name: " + st.scalar(c.name))
 		if c.base != nil {
-			line("  base: " + yq(*c.base))
+			line("  base: " + st.scalar(*c.base))
 		}
 	}
 	if len(r.values) == 0 {
 		line("values: []")
+	} else if st != nil && st.kind == "plain" && len(r.values)%2 == 0 {
+		var vs []string
+		for _, v := range r.values {
+			vs = append(vs, st.scalar(v))
+		}
+		line("values: [" + strings.Join(vs, ", ") + "]")
 	} else {
 		line("values:")
 		for _, v := range r.values {
-			line("  - " + yq(v))
+			line("  - " + st.text(v))
 		}
 	}
 	if r.bpm != nil {
-		line("bpm: " + yq(*r.bpm))
+		line("bpm: " + st.scalar(*r.bpm))
 	}
 	if r.velocity != nil {
-		line("velocity: " + yq(*r.velocity))
+		line("velocity: " + st.scalar(*r.velocity))
 	}
 	if r.meter != nil {
-		line("meter: " + yq(*r.meter))
+		line("meter: " + st.scalar(*r.meter))
 	}
 	if r.key != nil {
-		line("key: " + yq(*r.key))
+		line("key: " + st.scalar(*r.key))
 	}
 	if r.meta != nil {
 		if len(*r.meta) == 0 {
 			line("meta: {}")
-		} else {
-			line("meta:")
-			for _, kv := range *r.meta {
-				line("  " + yq(kv[0]) + ": " + yq(kv[1]))
+			return
+		}
+		if st != nil && st.kind == "alias" {
+			canon := func(kv [][2]string) string {
+				m := append([][2]string{}, kv...)
+				sort.Slice(m, func(i, j int) bool { return m[i][0] < m[j][0] })
+				return fmt.Sprint(m)
 			}
+			me := canon(*r.meta)
+			for i, prev := range st.metas {
+				if prev == me {
+					line(fmt.Sprintf("meta: *m%d", i))
+					return
+				}
+			}
+			// an earlier map whose entries are all here: merge it and add the rest
+			for i, prev := range st.metaKV {
+				have := map[[2]string]bool{}
+				for _, kv := range *r.meta {
+					have[kv] = true
+				}
+				sub := len(prev) > 0 && len(prev) < len(*r.meta)
+				for _, kv := range prev {
+					if !have[kv] {
+						sub = false
+					}
+				}
+				if sub {
+					in := map[[2]string]bool{}
+					for _, kv := range prev {
+						in[kv] = true
+					}
+					line("meta:")
+					line(fmt.Sprintf("  <<: *m%d", i))
+					for _, kv := range *r.meta {
+						if !in[kv] {
+							line("  " + yq(kv[0]) + ": " + st.text(kv[1]))
+						}
+					}
+					return
+				}
+			}
+			line(fmt.Sprintf("meta: &m%d", len(st.metas)))
+			st.metas = append(st.metas, me)
+			st.metaKV = append(st.metaKV, *r.meta)
+			for _, kv := range *r.meta {
+				line("  " + yq(kv[0]) + ": " + st.text(kv[1]))
+			}
+			return
+		}
+		line("meta:")
+		for _, kv := range *r.meta {
+			line("  " + yq(kv[0]) + ": " + st.scalar(kv[1]))
 		}
 	}
 }
 
-func yamlDoc(is []rawInstance) string {
+func yamlDoc(is []rawInstance) string { return yamlDocStyled(is, "") }
+
+func yamlDocStyled(is []rawInstance, kind string) string {
 	if len(is) == 0 {
 		return "[]\n"
 	}
+	var st *yamlStyle
+	if kind != "" && kind != "quoted" {
+		st = &yamlStyle{kind: kind, anchors: map[string]string{}}
+	}
 	var b strings.Builder
 	for _, i := range is {
-		i.yaml(&b)
+		i.yamlStyled(&b, st)
 	}
 	return b.String()
 }
@@ -314,6 +427,46 @@ func streamConv() {
 			}
 		}
 	}
+	// three declarations of a key in one piece, the third being the first again or its enharmonic twin, each carried by
+	// a chord or by a rest: whatever is remembered about a key that was left must not come back under another spelling,
+	// and a key carried by a rest counts like one carried by a chord
+	{
+		twins := map[string]string{"C#": "Db", "Db": "C#", "F#": "Gb", "Gb": "F#", "B": "Cb", "Cb": "B", "D#m": "Ebm", "Ebm": "D#m", "A#m": "Bbm", "Bbm": "A#m", "G#m": "Abm", "Abm": "G#m"}
+		roots := rootSpellings()
+		decl := func(onRest bool, chord, key string) string {
+			if onRest {
+				return fmt.Sprintf("R[1]{key=%s} %s[1]", key, chord)
+			}
+			return fmt.Sprintf("%s[1]{key=%s}", chord, key)
+		}
+		for _, k1 := range keys28 {
+			thirds := []string{k1}
+			if t, ok := twins[k1]; ok {
+				thirds = append(thirds, t)
+			}
+			for _, k2 := range keys28 {
+				if k2 == k1 || !(thorough() || r.Intn(7) == 0) {
+					continue
+				}
+				for _, k3 := range thirds {
+					for place := 0; place < 8; place++ {
+						if !thorough() && r.Intn(3) != 0 {
+							continue
+						}
+						x, y := roots[r.Intn(len(roots))], roots[r.Intn(len(roots))]
+						t1, t3 := strings.TrimSuffix(k1, "m"), strings.TrimSuffix(k3, "m")
+						piece := strings.Join([]string{decl(place&1 != 0, t1, k1), x + "[1]", decl(place&2 != 0, y, k2), x + "[1]",
+							decl(place&4 != 0, t3, k3), x + "[1]", y + "/" + x + "[1]"}, " ")
+						key := ""
+						if place == 7 {
+							key = keys28[r.Intn(28)]
+						}
+						cases = append(cases, convCase{"syllable", key, []byte(piece)})
+					}
+				}
+			}
+		}
+	}
 	for i := 0; i < pick(1500, 20000); i++ {
 		txt := []byte(genChordText(r, r.Intn(4) == 0))
 		if r.Intn(10) == 0 {
@@ -404,6 +557,7 @@ type rawChordDef struct {
 }
 
 type writeCase struct {
+	style  string // spelling of the YAML document (not part of the request: every spelling means the same)
 	flags  writeFlags
 	attrs  []rawAttr
 	chords []rawChordDef
@@ -429,11 +583,15 @@ func (c writeCase) req(op string) string {
 }
 
 func dictYAML(attrs []rawAttr, chords []rawChordDef) (string, string) {
+	return dictYAMLStyled(attrs, chords, nil)
+}
+
+func dictYAMLStyled(attrs []rawAttr, chords []rawChordDef, st *yamlStyle) (string, string) {
 	var a, c strings.Builder
 	for _, x := range attrs {
 		a.WriteString("- name: " + yq(x.name) + "\n")
 		if x.degree != nil {
-			a.WriteString("  degree: " + yq(*x.degree) + "\n")
+			a.WriteString("  degree: " + st.scalar(*x.degree) + "\n")
 		}
 	}
 	for _, x := range chords {
@@ -499,7 +657,7 @@ func runWrite(idx int, c writeCase, sub ...string) (string, []byte) {
 		must(os.WriteFile(outPath, bytes.Repeat([]byte("MTrk previous content "), 2000), 0o644))
 		args = append(args, "-o", outPath)
 	}
-	res := runCrd([]byte(yamlDoc(c.is)), 20*time.Second, args...)
+	res := runCrd([]byte(yamlDocStyled(c.is, c.style)), 20*time.Second, args...)
 	switch res.class() {
 	case "crash":
 		return "crash", nil
@@ -526,7 +684,8 @@ func sp(s string) *string { return &s }
 
 func genValue(r *rand.Rand, adversarial bool) string {
 	if !adversarial && r.Intn(25) == 0 { // at and below the resolution of one tick, and zero-padded spellings
-		return []string{"1/1919", "1/1920", "1/1921", "1/2000", "1/4000", "1/960", "3/5761", "1/100000", "01", "001/004", "010/08", "0016/0032"}[r.Intn(12)]
+		return []string{"1/1919", "1/1920", "1/1921", "1/2000", "1/4000", "1/960", "3/5761", "1/100000", "01", "001/004", "010/08", "0016/0032",
+			"010", "012", "0100", "007", "08", "0000000000000000000000001", "000000000000000000003/000000000000000000000000000004"}[r.Intn(19)]
 	}
 	if !adversarial {
 		switch r.Intn(4) {
@@ -540,7 +699,7 @@ func genValue(r *rand.Rand, adversarial bool) string {
 			return fmt.Sprintf("%d/%d", 1+r.Intn(5), []int{3, 5, 6, 7, 9, 11, 12, 24, 48, 96, 1920}[r.Intn(11)])
 		}
 	}
-	return []string{"0", "1/0", "0/1", "x", "", "1/2/3", "-1", "1.5", " 1", "1/ 2", "18446744073709551616", "+1"}[r.Intn(12)]
+	return []string{"0", "1/0", "0/1", "x", "", "1/2/3", "-1", "1.5", " 1", "1/ 2", "18446744073709551616", "+1", "0x10", "0o10", "0b11", "1_0", "1e1", "+1/2", "0x1/0x2"}[r.Intn(19)]
 }
 
 func genInstance(r *rand.Rand, malformed bool) rawInstance {
@@ -554,6 +713,12 @@ func genInstance(r *rand.Rand, malformed bool) rawInstance {
 		}
 		if r.Intn(3) == 0 {
 			c.base = sp(baseStrings[r.Intn(len(baseStrings))])
+		}
+		if r.Intn(20) == 0 { // zero-padded interval numbers are decimal numbers
+			c.degree = sp([]string{"01", "05", "07", "010", "011", "012", "b07", "#011", "0013"}[r.Intn(9)])
+			if r.Intn(3) == 0 {
+				c.base = sp([]string{"03", "010", "b07"}[r.Intn(3)])
+			}
 		}
 		i.chord = &c
 	}
@@ -669,6 +834,43 @@ func genWriteCase(r *rand.Rand) writeCase {
 		}
 		c.is = append(c.is, again...)
 	}
+	switch r.Intn(10) {
+	case 0, 1:
+		c.style = "plain"
+	case 2:
+		c.style = "single"
+	case 3, 4:
+		c.style = "alias"
+		// say again what was said before: a text, a whole metadata map, a map with one more entry
+		for i := 1; i < len(c.is); i++ {
+			j := r.Intn(i)
+			if c.is[j].meta == nil || len(*c.is[j].meta) == 0 || i == bad || j == bad {
+				continue
+			}
+			switch r.Intn(4) {
+			case 0:
+				m := append([][2]string{}, (*c.is[j].meta)...)
+				c.is[i].meta = &m
+			case 1:
+				m := append([][2]string{}, (*c.is[j].meta)...)
+				have := map[string]bool{}
+				for _, kv := range m {
+					have[kv[0]] = true
+				}
+				for _, k := range []string{"mrk", "lic", "txt", "note"} {
+					if !have[k] {
+						m = append(m, [2]string{k, []string{"again", "Verse", m[0][1]}[r.Intn(3)]})
+						break
+					}
+				}
+				c.is[i].meta = &m
+			case 2:
+				src := (*c.is[j].meta)[r.Intn(len(*c.is[j].meta))][1]
+				m := [][2]string{{[]string{"txt", "lic", "mrk"}[r.Intn(3)], src}}
+				c.is[i].meta = &m
+			}
+		}
+	}
 	if r.Intn(4) == 0 {
 		c.flags.key = keys28[r.Intn(28)]
 	}
@@ -763,6 +965,28 @@ func streamWrite() {
 			{chord: &rawChord{degree: sp("1"), name: ""}, values: []string{"1"}},
 			{chord: &rawChord{degree: sp("2"), name: ""}, values: []string{"1"}}, {values: []string{"2"}}}},
 	)
+	// the same pieces spelled without quotes, with single quotes, and with YAML aliases and merges
+	{
+		la, verse := [][2]string{{"lic", "la"}}, [][2]string{{"lic", "la"}, {"mrk", "Verse"}}
+		pieces := [][]rawInstance{
+			{{chord: &rawChord{degree: sp("010"), name: "7"}, values: []string{"010", "012"}, bpm: sp("060")},
+				{chord: &rawChord{degree: sp("011"), name: "m", base: sp("03")}, values: []string{"0100/0400", "007"}, bpm: sp("0120"), meter: sp("06/08")}},
+			{{chord: &rawChord{degree: sp("1"), name: ""}, values: []string{"1"}, meta: &la}, {values: []string{"1"}},
+				{chord: &rawChord{degree: sp("5"), name: "7"}, values: []string{"1"}, meta: &verse},
+				{chord: &rawChord{degree: sp("1"), name: ""}, values: []string{"1"}, meta: &la},
+				{chord: &rawChord{degree: sp("4"), name: ""}, values: []string{"1"}, meta: &[][2]string{{"txt", "la"}, {"mrk", "Verse"}}}},
+			{{chord: &rawChord{degree: sp("1"), name: ""}, values: []string{"0x10"}}},
+			{{chord: &rawChord{degree: sp("1"), name: ""}, values: []string{"1"}, bpm: sp("0x78")}},
+			{{chord: &rawChord{degree: sp("+5"), name: ""}, values: []string{"1"}}},
+		}
+		for _, p := range pieces {
+			for _, st := range []string{"quoted", "plain", "single", "alias"} {
+				for _, tr := range []int64{1, 2} {
+					cases = append(cases, writeCase{style: st, flags: writeFlags{track: tr, instrument: "Piano"}, is: p})
+				}
+			}
+		}
+	}
 	for _, k := range keys28 {
 		for _, sym := range []string{"", "m7b5"} {
 			cases = append(cases, writeCase{flags: writeFlags{track: 1, instrument: "Piano", key: k},
@@ -786,6 +1010,7 @@ func streamWrite() {
 		s.stat("class-" + strings.SplitN(results[i], " ", 2)[0])
 		s.stat(fmt.Sprintf("tracks-%d", c.flags.track))
 		s.stat(fmt.Sprintf("len-%d", len(c.is)))
+		s.stat("yaml-" + c.style)
 	}
 	// C06 on the real code alone: the same document with N tracks and with one track
 	var multi []int
@@ -1013,6 +1238,66 @@ func streamDict() {
 						c.is = append(c.is, rawInstance{chord: &rawChord{degree: sp(degreeStrings[k%7]), name: sym}, values: []string{"1"}})
 					}
 					cases = append(cases, c)
+				}
+			}
+		}
+	}
+	// fixed cases: chord names made of digits and accidentals next to interval numbers, so that writing degree, name
+	// and bass one after the other is ambiguous ("1"+"13" = "11"+"3"); each pair is played a, b, a
+	{
+		user := []rawChordDef{{name: "3", display: "u3", attrs: []string{"Perfect1", "Major3", "Major7"}}, {name: "13", display: "u13", extends: "9", attrs: []string{"Major13"}},
+			{name: "1", display: "u1", attrs: []string{"Perfect1", "Perfect5"}}, {name: "11", display: "u11", extends: "m7", attrs: []string{"Perfect11"}},
+			{name: "b3", display: "ub3", extends: "MinorTriad"}, {name: "/3", display: "us3", extends: "sus4"}, {name: "7/3", display: "u73", extends: "M7"}}
+		type dn struct{ deg, name, base string }
+		pairs := [][2]dn{{{"1", "13", ""}, {"11", "3", ""}}, {{"1", "11", ""}, {"11", "1", ""}}, {{"1", "1", ""}, {"11", "", ""}}, {{"b3", "3", ""}, {"b33", "", ""}},
+			{{"1", "b3", ""}, {"1b", "3", ""}}, {{"1", "/3", ""}, {"1", "", "3"}}, {{"1", "7/3", ""}, {"1", "7", "3"}}, {{"1", "3", ""}, {"13", "", ""}},
+			{{"#1", "3", ""}, {"1", "3", ""}}, {{"1", "13", "5"}, {"11", "3", "5"}}}
+		inst := func(x dn, key *string) rawInstance {
+			i := rawInstance{chord: &rawChord{degree: sp(x.deg), name: x.name}, values: []string{"1"}, key: key}
+			if x.base != "" {
+				i.chord.base = sp(x.base)
+			}
+			return i
+		}
+		for _, pr := range pairs {
+			for _, k := range []string{"", "C", "C#", "Bb"} {
+				var key *string
+				if k != "" {
+					key = sp(k)
+				}
+				for _, ord := range [][2]int{{0, 1}, {1, 0}} {
+					a, b := pr[ord[0]], pr[ord[1]]
+					cases = append(cases, writeCase{flags: writeFlags{track: 1, instrument: "Piano"}, chords: user,
+						is: []rawInstance{inst(a, key), inst(b, nil), inst(a, nil)}})
+				}
+			}
+		}
+		// key and degree next to each other: C + "#1" and C# + "1"
+		cases = append(cases, writeCase{flags: writeFlags{track: 1, instrument: "Piano"}, chords: user,
+			is: []rawInstance{inst(dn{"#1", "", ""}, sp("C")), inst(dn{"1", "", ""}, sp("C#")), inst(dn{"#1", "", ""}, sp("C")), inst(dn{"b1", "m", ""}, sp("C")), inst(dn{"1", "m", ""}, sp("Cb"))}})
+	}
+	// fixed cases: long names and display symbols share one space of names.  A user chord named like another chord's
+	// symbol (or showing another chord's long name as its symbol) takes that name over, whatever it is itself shown
+	// as; the chord that lost the name stays reachable under its other name
+	{
+		type take struct{ name, display string }
+		for _, t := range []take{{"dim", "o"}, {"7", "dom"}, {"m", "min"}, {"M7", "maj"}, {"sus4", "s4"}, {"6", "six"}, {"aug", "plus"}, {"m7b5", "hd"},
+			{"Oh", "MajorTriad"}, {"Dom", "DominantSeventh"}, {"MinorTriad", "MajorTriad"}, {"7", "m"}, {"m", "7"}, {"dim", "dim7"}} {
+			for _, body := range []rawChordDef{{attrs: []string{"Perfect1", "Minor3", "Diminished5", "Major6"}}, {extends: "MinorTriad", attrs: []string{"Major9"}}, {extends: t.name}, {extends: t.display}} {
+				u := rawChordDef{name: t.name, display: t.display, attrs: body.attrs, extends: body.extends}
+				child := rawChordDef{name: "ChildOfTaken", display: "cot", extends: t.name, attrs: []string{"Major13"}}
+				for _, defs := range [][]rawChordDef{{u}, {u, child}, {child, u}} {
+					c := writeCase{flags: writeFlags{track: 1, instrument: "Piano"}, chords: defs}
+					for k, q := range []string{t.name, t.display, "cot", t.name, "DiminishedTriad", "dim", "7", "m", ""} {
+						if q == "cot" && len(defs) == 1 {
+							continue
+						}
+						c.is = append(c.is, rawInstance{chord: &rawChord{degree: sp(degreeStrings[k%7]), name: q}, values: []string{"1"}})
+					}
+					cases = append(cases, c)
+					// one look-up per run as well: a refused dictionary must not hide behind a chord that is not played
+					cases = append(cases, writeCase{flags: writeFlags{track: 1, instrument: "Piano"}, chords: defs,
+						is: []rawInstance{{chord: &rawChord{degree: sp("1"), name: t.name}, values: []string{"1"}}}})
 				}
 			}
 		}
